@@ -1,3 +1,4 @@
+import MaestroVerif.Lemmas.ExpandPlace
 import MaestroVerif.Model.Expand
 import MaestroVerif.Lemmas.SubstLemmas
 import MaestroVerif.Lemmas.SubstTokens
@@ -98,5 +99,133 @@ example :
       "echo 7 > /w/run/x $(PX)".toList ∧
     passes [("OUT".toList, "/w/run".toList), ("P".toList, "7".toList)] (render segs) =
       "echo 7 > /w/run/x $(PX)".toList := by decide +kernel
+
+/-! ### workspace tokens -/
+section Workspace
+open MaestroVerif.Expand
+
+/-- **`$(step.workspace)` tokens**: when the workspace pass succeeds every referenced workspace was
+resolved, and the result is the text with one replacement pass per referenced step, each token
+replaced by the value that step resolved to (for the command and the restart command alike) -/
+theorem C09_workspace_tokens (resolve : Str → Except Err Str) : ∀ (ms : List Str) (cmd r cmd' r' : Str),
+    substWs resolve ms (cmd, r) = .ok (cmd', r') →
+    (∀ m, m ∈ ms → ∃ w, resolve m = .ok w) ∧
+    ∀ v : Str → Str, (∀ m, m ∈ ms → resolve m = .ok (v m)) →
+      cmd' = ms.foldl (fun t m => replaceAll t (tokWs m) (v m)) cmd ∧
+      r' = ms.foldl (fun t m => replaceAll t (tokWs m) (v m)) r := by
+  intro ms
+  induction ms with
+  | nil =>
+    intro cmd r cmd' r' h
+    simp only [substWs, Except.ok.injEq, Prod.mk.injEq] at h
+    obtain ⟨rfl, rfl⟩ := h
+    exact ⟨fun m hm => absurd hm List.not_mem_nil, fun v _ => ⟨rfl, rfl⟩⟩
+  | cons m ms ih =>
+    intro cmd r cmd' r' h
+    simp only [substWs] at h
+    cases hm : resolve m with
+    | error e => simp [hm] at h
+    | ok w =>
+      simp only [hm] at h
+      obtain ⟨a, b⟩ := ih _ _ _ _ h
+      refine ⟨?_, ?_⟩
+      · intro x hx
+        rcases List.mem_cons.mp hx with e | e
+        · subst e; exact ⟨w, hm⟩
+        · exact a x e
+      · intro v hv
+        have hw : v m = w := by
+          have := hv m (List.mem_cons_self ..)
+          rw [hm] at this
+          simpa using this.symm
+        have := b v (fun x hx => hv x (List.mem_cons_of_mem _ hx))
+        simp only [List.foldl_cons, hw]
+        exact this
+
+/-- **what a workspace token stands for**: a funnel parent's token resolves to that step's root
+directory; an ordinary parent's to the recorded workspace of the parent's instance for the *same*
+combination (the parent itself when it uses no parameter) -/
+theorem C09_workspace_value (spec : Spec) (hubD : List Str) (workspaces : List (Str × Str))
+    (usedTbl : List (Str × List Str)) (c : Combo) (m : Str) :
+    (hubD.contains m = true →
+      resolveRow spec hubD workspaces usedTbl c m = .ok (makeSafePath spec.root [m])) ∧
+    (hubD.contains m = false →
+      resolveRow spec hubD workspaces usedTbl c m = wsOf workspaces (instName m (getAssoc usedTbl m) c)) := by
+  constructor
+  · intro h; simp only [resolveRow, h, ↓reduceIte]
+  · intro h
+    simp only [resolveRow, h, Bool.false_eq_true, ↓reduceIte, instName]
+    split <;> rfl
+
+/-- an unparameterised step: a funnel parent's root directory, else the recorded workspace of the step named -/
+theorem C09_workspace_value_flat (spec : Spec) (hubD : List Str) (workspaces : List (Str × Str)) (m : Str) :
+    (hubD.contains m = true → resolveFlat spec hubD workspaces m = .ok (makeSafePath spec.root [m])) ∧
+    (hubD.contains m = false → resolveFlat spec hubD workspaces m = wsOf workspaces m) := by
+  constructor
+  · intro h; simp only [resolveFlat, h, ↓reduceIte]
+  · intro h; simp only [resolveFlat, h, Bool.false_eq_true, ↓reduceIte]
+
+theorem wsOf_filter_append (l : List (Str × Str)) (k ws k' : Str) :
+    wsOf (l.filter (fun e => e.1 != k) ++ [(k, ws)]) k' =
+      if k' = k then .ok ws else wsOf l k' := by
+  unfold wsOf
+  rw [List.find?_append]
+  by_cases hk : k' = k
+  · subst hk
+    have : (l.filter (fun e => e.1 != k')).find? (·.1 == k') = none := by
+      apply List.find?_eq_none.mpr
+      intro x hx
+      simp only [List.mem_filter, bne_iff_ne, ne_eq] at hx
+      simpa using hx.2
+    simp [this]
+  · simp only [hk, ↓reduceIte]
+    have hf : (l.filter (fun e => e.1 != k)).find? (·.1 == k') = l.find? (·.1 == k') := by
+      induction l with
+      | nil => rfl
+      | cons e es ih =>
+        simp only [List.filter_cons]
+        by_cases he : e.1 = k
+        · have h1 : (e.1 != k) = false := by simp [he]
+          have h2 : (e.1 == k') = false := by rw [he]; simpa using fun h => hk h.symm
+          simp only [h1, Bool.false_eq_true, ↓reduceIte, List.find?_cons, h2, ih]
+        · have h1 : (e.1 != k) = true := by simp [he]
+          simp only [h1, ↓reduceIte, List.find?_cons, ih]
+    rw [hf]
+    cases l.find? (·.1 == k') with
+    | some p => rfl
+    | none =>
+      have : (k == k') = false := by simpa using fun h => hk h.symm
+      simp [List.find?_cons, this]
+
+/-- **the workspace the tokens resolve to is the instance's own directory**: after the instance
+for (step, row) is created the workspace table maps its name to
+`<root>/<step>/<combination string or its hash>`, and every other entry is as before -/
+theorem C09_workspace_recorded (spec : Spec) (ord : List Str → List Str) (st : Step) (used : List Str)
+    (s s' : SS) (row : Nat) (h : stageRow spec ord st used s row = .ok s') :
+    wsOf s'.workspaces (instName st.name used (combo spec.params row)) =
+      .ok (makeSafePath spec.root [st.name,
+        if spec.hashWs then lookup spec.md5 ((combo spec.params row).paramString used)
+        else (combo spec.params row).paramString used]) ∧
+    ∀ k, k ≠ instName st.name used (combo spec.params row) → wsOf s'.workspaces k = wsOf s.workspaces k := by
+  unfold stageRow at h
+  simp only at h
+  split at h
+  · simp only [Except.ok.injEq] at h
+    subst h
+    simp only
+    exact ⟨by rw [wsOf_filter_append]; by_cases hh : spec.hashWs = true <;> simp [hh],
+      fun k hk => by rw [wsOf_filter_append]; simp [hk]⟩
+  · split at h
+    · cases h
+    · unfold place at h
+      split at h
+      · cases h
+      · simp only [Except.ok.injEq] at h
+        subst h
+        simp only
+        exact ⟨by rw [wsOf_filter_append]; by_cases hh : spec.hashWs = true <;> simp [hh],
+          fun k hk => by rw [wsOf_filter_append]; simp [hk]⟩
+
+end Workspace
 
 end MaestroVerif.C09
